@@ -33,7 +33,16 @@ ASSUME PolyValue(<< [c |-> 2, e |-> <<2, 0>>], [c |-> -1, e |-> <<0, 1>>], [c |-
          = [num |-> 2 * 9 - 5 * 2 + 3 * 4, den |-> 4]                   \* 2 x^2 - y + 3 at (3/2, 5/2) = 5
 ASSUME PolyValue(<< [c |-> 1, e |-> <<1, 1, 1>>] >>, <<1, 2, 3>>, 3) = [num |-> 6, den |-> 27]
 
-TolSolve == FxTol(26)              \* 2^-26 per unit of the solution's scale (end-to-end solves on <= ~250 DOFs)
+\* Tolerances per unit of the solution's scale.  Calibration (quick seeds 0..4 + thorough seed 0; direct solvers
+\* spsolve as is, splu, spsolve with permc_spec NATURAL / MMD_AT_PLUS_A / MMD_ATA / COLAMD, use_umfpack=False):
+\*   condense / enforce solves (regular, operation-history and graded meshes), projections (regular, curved,
+\*   graded nodal families):  worst observed 1.7e-12 (enforce + elasticity on a Delaunay mesh; graded enforce +
+\*   reaction under splu 1.6e-12)                                    -> TolSolve    = 2^-26 = 1.5e-8  (factor 9e3)
+\*   penalize (default epsilon: entries 1e10 next to O(1) ones; a backward-stable solve of THAT system gives
+\*   ~1e-16 * 1e10 * cond):  8.5e-11 with spsolve, 3.7e-6 with splu  -> TolPenalize = 2^-8  = 3.9e-3  (factor 1e3)
+TolSolve    == FxTol(26)
+TolPenalize == FxTol(8)
+TolOfMethod(method) == IF method = "penalize" THEN TolPenalize ELSE TolSolve
 
 \* scale of the solution: 1 + the largest integer part of |P| over the DOF locations of the scenario
 SolutionScale(e) ==
@@ -68,10 +77,10 @@ SolveWF(e) ==
 \* every DOF of the nodal element carries the exact value of the polynomial at its location
 SolutionIsInterpolant(e) ==
   IF e.S2 > 0
-  THEN LET tol == FxMulSmall(TolSolve, Min2(DyadicScale(e), 16384)) IN       \* the solution is O(1): local scale
+  THEN LET tol == FxMulSmall(TolOfMethod(e.method), Min2(DyadicScale(e), 16384)) IN       \* the solution is O(1): local scale
        \A d \in DOMAIN e.loc : FxNear(e.x[d], PolyValueDyadic(e.poly[e.comp[d]], e.loc[d], e.S2), tol)
   ELSE
-  LET tol == FxMulSmall(TolSolve, Min2(SolutionScale(e), 16384)) IN
+  LET tol == FxMulSmall(TolOfMethod(e.method), Min2(SolutionScale(e), 16384)) IN
   \A d \in DOMAIN e.loc :
     LET v == PolyValue(e.poly[e.comp[d]], e.loc[d], e.S) IN
     FxNear(e.x[d], FxRat(v.num, v.den), tol)
